@@ -381,6 +381,61 @@ func checkC03(c *Ctx) error {
 			c.Add("doubling_law_checked", k)
 		}
 	}
+	// (e) near misses of registered function names and of the token shape: all must be rejected naming the parameter,
+	// while the exact forms next to them are accepted
+	{
+		reg := []string{"env", "envInt", "todo", "fn", "myFunc1"}
+		type nm struct {
+			s      string
+			accept bool
+		}
+		var cases []nm
+		for _, f := range reg {
+			arg := `"X"`
+			if f == "envInt" {
+				arg = `"X", 1`
+			}
+			cases = append(cases, nm{"%" + f + "(" + arg + ")%", true})
+			for _, bad := range []string{f + "x", f + "1", f + "_", f[:len(f)-1], strings.ToUpper(f[:1]) + f[1:], strings.ToLower(f), "x" + f, f + f, f + "Later"} {
+				if bad == "" || bad == f {
+					continue
+				}
+				known := false
+				for _, g := range reg {
+					known = known || g == bad
+				}
+				if known {
+					continue
+				}
+				cases = append(cases, nm{"%" + bad + "(" + arg + ")%", false}, nm{"a%" + bad + "(" + arg + ")%b", false})
+			}
+			cases = append(cases, nm{"%" + f + " (" + arg + ")%", false}, nm{"% " + f + "(" + arg + ")%", false}, nm{"%" + f + "(" + arg + ") %", false}, nm{"%" + f + "(" + arg + "%", false}, nm{"%" + f + arg + ")%", false}, nm{"%" + f + "()()%", true})
+		}
+		conf := &cfg.Config{Meta: cfg.Meta{Pkg: cfg.P("gen"), Imports: []cfg.KS{{K: "pa", V: "fixt/pa"}}, Functions: []cfg.KS{{K: "fn", V: "pa.FnEcho"}, {K: "myFunc1", V: "pa.Fn"}}}}
+		for i, cse := range cases {
+			conf.Params = append(conf.Params, cfg.KV{K: fmt.Sprintf("n%04d", i), V: cfg.Str(cse.s)})
+		}
+		dir := w.TempDir("c03n")
+		yaml := conf.YAML()
+		_ = work.WriteFile(filepath.Join(dir, "in.yaml"), []byte(yaml))
+		out := filepath.Join(dir, "out.go")
+		run := cli.Do(w, "", nil, dir, out, "build", "-i", "in.yaml", "-o", out)
+		rejected := namesInCompileErrors(&run)
+		for i, cse := range cases {
+			name := fmt.Sprintf("n%04d", i)
+			c.Eval("near-miss|"+cse.s, true)
+			if cse.s == "%todo()()%" || strings.HasSuffix(cse.s, "()()%") {
+				continue // `f()()` has the call shape with arguments `)(`: acceptance depends on the Go text, not judged
+			}
+			if cse.accept && rejected[name] {
+				c.Violate("registered-function-rejected", fmt.Sprintf("%q uses a registered function but is rejected: %s", cse.s, diagFor(&run, name)), map[string]string{"input/in.yaml": yaml})
+			}
+			if !cse.accept && !rejected[name] {
+				c.Violate("unknown-function-accepted", fmt.Sprintf("%q is not a call of a registered function (near miss of a registered name or of the token shape) but no diagnostic names it", cse.s), map[string]string{"input/in.yaml": yaml, "stdout.txt": firstLines(run.Res.Stdout, 60)})
+			}
+		}
+		c.Set("near_miss_function_tokens", len(cases))
+	}
 	// "badgo" strings (call arguments that are not Go): each alone must fail in the code generation step
 	var bad []string
 	for _, b := range batches {
